@@ -1,12 +1,17 @@
 ------------------------------- MODULE Build -------------------------------
 (* C20: definition builds are deterministic, isolated and leave no residue.
 
-   Protocol model (one action per critical step of SynthDef._build): threads attempt builds of
-   functions; a build takes the global build lock, installs itself as the global build context,
+   Protocol model (one action per critical step of SynthDef._build and of SynthDesc._read_synthdef2,
+   the other user of the build lock and of the global context: SynthDef.add / store / SynthDescLib.read
+   / SynthDesc.new_from / _read_stream re-build a definition from bytes into a dummy definition that is
+   installed as the current one while its units are re-created).  Threads attempt builds of functions or
+   read-backs of bytes (kind "build" / "read"); a build takes the global build lock, installs itself as the global build context,
    runs its graph function (two unit creations - a unit attaches to whatever context is current
    when it is created), checks/finishes, clears the context (on success and on failure) and
    releases the lock.  Between builds a thread may create a unit outside any build (Orphan).
-   An attempt ends ok, raises inside the function, or raises in the checks.
+   Orphan also tries SynthDef.wrap, which must refuse to work outside a build.
+   An attempt ends ok, raises inside the function (read: while re-creating units - unknown class,
+   truncated or damaged bytes), or raises in the checks (read: SynthDescError of the final check).
 
    L1 properties (invariants):
      CtxClearedWhenIdle    lock free            => no context installed
@@ -17,18 +22,20 @@
      Deterministic         finished definitions of the same function have the same bytes
    bytes are abstracted as <<function, own units, foreign units>>.
 
-   Constants ClearOnFail / UseLock switch off one mechanism each: the checks run those
+   Constants ClearOnFail / ClearOnReadFail / UseLock switch off one mechanism each (ClearOnReadFail =
+   FALSE: a read-back clears the context on success and on its own error type only): the checks run those
    configurations too and REQUIRE the violation (the invariants are not vacuous).
 
    The predicates ExclusiveOK, IdleOK, DetOK are the ones TraceBuild.tla evaluates on the
    observations recorded from real (threaded) builds.                                        *)
 EXTENDS Naturals, Sequences, FiniteSets, TLC
-CONSTANTS Threads, Funcs, MaxAttempts, ClearOnFail, UseLock
+CONSTANTS Threads, Funcs, MaxAttempts, ClearOnFail, ClearOnReadFail, UseLock
+Kinds == {"build", "read"}
 Outcomes == {"ok", "raise_func", "raise_check"}
 VARIABLES lock, ctx, pc, att, nb, owner, fin, natt, orphans
 vars == <<lock, ctx, pc, att, nb, owner, fin, natt, orphans>>
 
-NoAtt == [id |-> 0, f |-> "", out |-> ""]
+NoAtt == [id |-> 0, f |-> "", out |-> "", kind |-> ""]
 Init == /\ lock = 0 /\ ctx = 0 /\ pc = [t \in Threads |-> "idle"] /\ att = [t \in Threads |-> NoAtt]
         /\ nb = 0 /\ owner = <<>> /\ fin = {} /\ natt = [t \in Threads |-> 0] /\ orphans = {}
 
@@ -44,7 +51,8 @@ Has(id) == {u \in DOMAIN owner : owner[u] = id}              \* units attached t
 Put(u, o) == [x \in (DOMAIN owner) \cup {u} |-> IF x = u THEN o ELSE owner[x]]
 
 Begin(t) == /\ pc[t] = "idle" /\ natt[t] < MaxAttempts
-            /\ \E f \in Funcs, o \in Outcomes : att' = [att EXCEPT ![t] = [id |-> nb + 1, f |-> f, out |-> o]]
+            /\ \E f \in Funcs, o \in Outcomes, k \in Kinds :
+                  att' = [att EXCEPT ![t] = [id |-> nb + 1, f |-> f, out |-> o, kind |-> k]]
             /\ nb' = nb + 1 /\ pc' = [pc EXCEPT ![t] = "want"]
             /\ UNCHANGED <<lock, ctx, owner, fin, natt, orphans>>
 Acquire(t) == /\ pc[t] = "want" /\ (UseLock => lock = 0)
@@ -63,30 +71,31 @@ Check(t) == /\ pc[t] = "chk"
             /\ IF att[t].out = "raise_check"
                THEN pc' = [pc EXCEPT ![t] = "fail"] /\ UNCHANGED fin
                ELSE /\ pc' = [pc EXCEPT ![t] = "done"]
-                    /\ fin' = fin \cup {[id |-> att[t].id, f |-> att[t].f,
+                    /\ fin' = fin \cup {[id |-> att[t].id, f |-> <<att[t].kind, att[t].f>>,
                                          bytes |-> <<att[t].f, Cardinality(Has(att[t].id) \cap Own(att[t].id)),
                                                      Cardinality(Has(att[t].id) \ Own(att[t].id))>>,
                                          lost |-> Cardinality(Own(att[t].id) \ Has(att[t].id))]}
             /\ UNCHANGED <<lock, ctx, att, nb, owner, natt, orphans>>
 ClearOk(t) == /\ pc[t] = "done" /\ ctx' = 0 /\ pc' = [pc EXCEPT ![t] = "rel"]
               /\ UNCHANGED <<lock, att, nb, owner, fin, natt, orphans>>
-ClearFail(t) == /\ pc[t] = "fail" /\ ctx' = (IF ClearOnFail THEN 0 ELSE ctx) /\ pc' = [pc EXCEPT ![t] = "rel"]
+Cleared(a) == IF a.kind = "build" THEN ClearOnFail ELSE (ClearOnReadFail \/ a.out = "raise_check")
+ClearFail(t) == /\ pc[t] = "fail" /\ ctx' = (IF Cleared(att[t]) THEN 0 ELSE ctx) /\ pc' = [pc EXCEPT ![t] = "rel"]
                 /\ UNCHANGED <<lock, att, nb, owner, fin, natt, orphans>>
 Release(t) == /\ pc[t] = "rel" /\ lock' = (IF lock = t THEN 0 ELSE lock)
               /\ pc' = [pc EXCEPT ![t] = "idle"] /\ natt' = [natt EXCEPT ![t] = @ + 1]
               /\ att' = [att EXCEPT ![t] = NoAtt]
               /\ UNCHANGED <<ctx, nb, owner, fin, orphans>>
-\* a unit created while nobody is building
+\* a unit created (and SynthDef.wrap tried) while nobody is building or reading
 Orphan(t) == /\ pc[t] = "idle" /\ \A s \in Threads : ~Building(pc[s])
              /\ Cardinality(orphans) < 2
-             /\ orphans' = orphans \cup {[n |-> Cardinality(orphans) + 1, owner |-> ctx]}
+             /\ orphans' = orphans \cup {[n |-> Cardinality(orphans) + 1, owner |-> ctx, wrap |-> ctx # 0]}
              /\ UNCHANGED <<lock, ctx, pc, att, nb, owner, fin, natt>>
 Next == \E t \in Threads : Begin(t) \/ Acquire(t) \/ SetCtx(t) \/ Create1(t) \/ Create2(t) \/ Check(t)
                            \/ ClearOk(t) \/ ClearFail(t) \/ Release(t) \/ Orphan(t)
 Spec == Init /\ [][Next]_vars
 
 CtxClearedWhenIdle == IdleOK(lock, ctx, pc)
-NoResidue == \A o \in orphans : o.owner = 0
+NoResidue == \A o \in orphans : o.owner = 0 /\ ~o.wrap
 Isolation == \A b \in fin : b.bytes[3] = 0 /\ b.lost = 0
 LockFreeAfterFailure == \A t \in Threads : lock = t => Building(pc[t])
 Exclusive == ExclusiveOK(pc)
